@@ -96,7 +96,24 @@ def pyro():
     import Pyro5.core
     import Pyro5.callcontext
     import Pyro5
+    enable_logging_for_some_shards()
     return Pyro5
+
+
+LOGGING_ON = [False]
+
+
+def enable_logging_for_some_shards():
+    """every third shard process runs with Pyro5's logging switched on (level DEBUG, records discarded by a NullHandler): whatever the
+    library does only when somebody listens to its log - formatting arguments, helper calls - runs there too"""
+    if LOGGING_ON[0] or int(os.environ.get("VERIF_SHARD_INDEX", "0")) % 3 != 1:
+        return
+    import logging
+    lg = logging.getLogger("Pyro5")
+    lg.addHandler(logging.NullHandler())
+    lg.setLevel(logging.DEBUG)
+    lg.propagate = False
+    LOGGING_ON[0] = True
 
 
 def make_monitored_daemon_class(base=None):
